@@ -29,3 +29,10 @@ e1("C02", "Translation validation used as a satisfiability oracle: for each enum
           "solution (Q2). Includes conditions folded before solving (non-random if-conditions inside foreach) and just-satisfiable systems.",
    "translation validation: z3 satisfiability of the reference vs the real verdict/exception; Q2 (reference implies asserted formula); replay by pinning a legal solution",
    "DESIGN.md section 6 C02")
+
+e3("C10", "Bounded symbolic execution of the real coverage code through the public API: for each enumerated bin specification (explicit "
+          "bins, bin arrays with/without count, ignore/illegal cuts, auto-bins incl. 32/64-bit types, enum, iff) the sample values over the "
+          "whole type range and the iff values are symbolic over 1..2 samples, and z3 shows on every path that each regular/ignore/illegal "
+          "bin's hit count equals the number of gated samples in the reference value set (independent partition function). "
+          "RangelistModel.compact/intersect are additionally decided with symbolic endpoints.",
+   "symbolic execution of the real Python code with z3 (all sample values), enumerated bin specifications, independent partition oracle", "DESIGN.md section 6 C10")
